@@ -24,7 +24,7 @@ type solver struct {
 	m             int
 	first, last   []int32 // first/last index of each id in `in`
 	contiguous    bool    // every value occupies one contiguous run of `in` (true for any sorted in-order)
-	preCnt        [][]int32
+	prePos        [][]int32 // prePos[v] = sorted positions of v in pre (only for values occurring more than once)
 	failed        map[key]struct{} // existence mode: subproblems known to be infeasible
 	memo          map[key][]int8   // balanced mode: feasible heights
 	branched      bool
@@ -89,19 +89,11 @@ func newSolver(pre, in, post []int, balanced bool) *solver {
 		}
 		s.last[v] = int32(i)
 	}
-	s.preCnt = make([][]int32, w)
-	for v := 0; v < w; v++ {
-		if s.first[v] == s.last[v] {
-			continue
+	s.prePos = make([][]int32, w)
+	for x, u := range s.pre {
+		if s.first[u] != s.last[u] {
+			s.prePos[u] = append(s.prePos[u], int32(x))
 		}
-		c := make([]int32, len(s.pre)+1)
-		for x, u := range s.pre {
-			c[x+1] = c[x]
-			if u == v {
-				c[x+1]++
-			}
-		}
-		s.preCnt[v] = c
 	}
 	return s
 }
@@ -155,12 +147,15 @@ func (s *solver) candidates(p, i, q, n int, f func(j, ls, rs int) bool) {
 			continue
 		}
 		if s.contiguous {
-			if c := s.preCnt[root]; c != nil {
+			if ps := s.prePos[root]; ps != nil {
 				a := int(s.first[root])
 				if a < i {
 					a = i
 				}
-				if int(c[p+1+ls]-c[p+1]) != j-a {
+				// occurrences of root in pre[p+1 : p+1+ls]
+				lo := sort.Search(len(ps), func(k int) bool { return int(ps[k]) >= p+1 })
+				hi := sort.Search(len(ps), func(k int) bool { return int(ps[k]) >= p+1+ls })
+				if hi-lo != j-a {
 					continue
 				}
 			}
